@@ -189,7 +189,8 @@ func (p c18) Run(seed int64, tier string, idx int) (o Outcome) {
 	}
 	r := caseRng(seed, "C18", idx)
 	var g *spec.Grammar
-	if idx >= len(families) && idx%3 == 0 {
+	if idx >= len(families) && idx%3 == 0 && idx%9 != 6 {
+		// (idx%9 == 6 is left to pickGrammar: those grammars call their start symbol "start")
 		g = gen.OpTable(r)
 	} else {
 		g = pickGrammar(r, idx, true, stdCfg)
